@@ -242,7 +242,7 @@ class Color(Sequence):
                 green = int(ss[2:4], 16)
                 blue = int(ss[4:6], 16)
                 if len(ss) == 8:
-                    alpha = int(ss[6:8], 16) / 255
+                    alpha *= int(ss[6:8], 16) / 255
             else:
                 raise ValueError(f"expected 3, 4, 6, or 8 hex digits, found {s!r}")
         elif s in _CSS_COLORS:
